@@ -106,14 +106,17 @@ class World(object):
                                       for r in recs])
             pa.add_particles(**kw)
         if self.bystanders:
-            for k, nm in enumerate(('inlet', 'fluid', 'outlet')):
+            for k, nm in enumerate(('inlet', 'fluid', 'outlet', 'fluid')):
                 self.pas[nm].add_particles(**self._bystander(k))
                 self.pas[nm].align_particles()
 
     def _bystander(self, k):
         # in the middle of its own zone, far away sideways
-        s = (-0.5 * self.L, 0.5 * self.fl, self.fl + 0.5 * self.L)[k]
-        pos = s * self.flow + 7.0 * self._perp()
+        # (k == 3: a second ghost of the fluid array, lying beyond the outlet
+        # plane, as the periodic copy of a fluid particle may)
+        s = (-0.5 * self.L, 0.5 * self.fl, self.fl + 0.5 * self.L,
+             self.fl + 0.4 * self.L)[k]
+        pos = s * self.flow + (7.0 + k) * self._perp()
         uid = 900 + k
         kw = dict(x=[pos[0]], y=[pos[1]], z=[pos[2]], tag=[2])
         for p in PROPS:
@@ -123,14 +126,15 @@ class World(object):
     def bystanders_ok(self):
         if not self.bystanders:
             return None
-        for k, nm in enumerate(('inlet', 'fluid', 'outlet')):
+        for k, nm in enumerate(('inlet', 'fluid', 'outlet', 'fluid')):
             pa = self.pas[nm]
             uid = pa.get('uid', only_real_particles=False)
-            idx = [i for i in range(len(uid)) if uid[i] >= 900]
+            idx = [i for i in range(len(uid)) if uid[i] == 900 + k]
             want = self._bystander(k)
-            if len(idx) != 1:
-                return '%s holds %d ghost bystanders (1 placed)' % (nm,
-                                                                   len(idx))
+            nall = sum(1 for v in uid if v >= 900)
+            if len(idx) != 1 or nall != (2 if nm == 'fluid' else 1):
+                return '%s holds %d ghost bystanders, %d of them number %d' % (
+                    nm, nall, len(idx), k)
             i = idx[0]
             for p, v in want.items():
                 st = pa.stride.get(p, 1)
